@@ -1,6 +1,7 @@
 import NunavutVerif.Lemmas.Config
 import NunavutVerif.Lemmas.ConfigHeap
 import NunavutVerif.Gen.CppDefaults
+import NunavutVerif.Gen.CliOptions
 /-!
 # C13 — configuration sources are merged with a fixed, order-insensitive precedence
 
@@ -281,6 +282,24 @@ theorem C13_cpp_shorthand_file_independent (g g' o₁ o₂ : M κ σ) (k : κ) (
   cases h : g.get k with
   | none => simp [h] at this
   | some v => rfl
+
+/-! ## The command line: defaults are not explicit values -/
+
+/-- The generated table of EVERY command-line option read by `_create_language_context` (regenerated from
+the runner's code and the argparse definitions): an option that reaches the configuration either has the
+argparse default `None` (the runner's `is not None` guard / the builder's "`None` is ignored" then keep it
+out of the overrides — `Op.setOverride k none` is a no-op), or is a `store_true` flag with default `False`
+that the runner wraps as `DefaultValue(False)` (which by `C13_default_never_displaces` cannot displace a
+file's value).  So no *default* of the command line is ever merged as an explicit value. -/
+theorem C13_cli_defaults_are_not_explicit :
+    Gen.cliOptions.all (fun o =>
+      o.role == "ctor" ||
+      (o.wrapped && o.action == "store_true" && o.dflt == "False") ||
+      (!o.wrapped && o.dflt == "None")) = true := by decide
+
+example : Gen.cliOptions.any (fun o => o.role == "option" && o.wrapped) = true ∧
+    Gen.cliOptions.any (fun o => o.role == "option" && !o.wrapped) = true ∧
+    Gen.cliOptions.any (fun o => o.role == "config") = true := by decide
 
 /-! ## T6 objects: source documents unmodified, separation
 
